@@ -43,7 +43,12 @@ func c13Ops(w *World) [][]Op {
 		for i := 0; i < 6+r.Intn(14); i++ {
 			switch r.Intn(12) {
 			case 0, 1:
-				ops = append(ops, Op{K: "reinforce", Idx: c13Hot, IDs: []string{"hot"}})
+				if r.Intn(4) == 0 {
+					// a node some client may be deleting right now: the call may fail, but must not leave anything behind
+					ops = append(ops, Op{K: "reinforce", Idx: c13Hot, IDs: []string{fmt.Sprintf("c%dn%d", r.Intn(nClients), 1+r.Intn(3))}})
+				} else {
+					ops = append(ops, Op{K: "reinforce", Idx: c13Hot, IDs: []string{"hot"}})
+				}
 			case 2, 3:
 				uniq++
 				ops = append(ops, Op{K: "setmeta", Idx: c13Hot, ID: "hot", Meta: map[string]any{fmt.Sprintf("m%d_%d", c, uniq): float64(uniq)}})
@@ -61,7 +66,11 @@ func c13Ops(w *World) [][]Op {
 			case 7:
 				own++
 				ix := pick(r, []string{c13Hot, c13Hot, c13Churn})
-				ops = append(ops, Op{K: "add", Idx: ix, ID: fmt.Sprintf("c%dn%d", c, own), Vec: genVec(r, 3), Meta: map[string]any{"owner": float64(c)}})
+				meta := map[string]any{"owner": float64(c)}
+				if r.Intn(2) == 0 {
+					meta["content"] = pick(r, metaTexts) // text-indexed field: hybrid searches run against concurrent inserts
+				}
+				ops = append(ops, Op{K: "add", Idx: ix, ID: fmt.Sprintf("c%dn%d", c, own), Vec: genVec(r, 3), Meta: meta})
 			case 8:
 				if own > 0 {
 					ops = append(ops, Op{K: "del", Idx: c13Hot, ID: fmt.Sprintf("c%dn%d", c, 1+r.Intn(own))})
@@ -69,7 +78,11 @@ func c13Ops(w *World) [][]Op {
 			case 9:
 				ops = append(ops, Op{K: pick(r, []string{"link", "unlink"}), Idx: c13Hot, ID: pick(r, []string{"hot", "a", "b"}), ID2: pick(r, []string{"hot", "a", "b"}), Rel: "r", W: 1})
 			case 10:
-				ops = append(ops, Op{K: "q_search", Idx: pick(r, []string{c13Hot, c13Churn}), Vec: genVec(r, 3), KK: 5})
+				q := Op{K: "q_search", Idx: pick(r, []string{c13Hot, c13Churn}), Vec: genVec(r, 3), KK: 5}
+				if r.Intn(2) == 0 {
+					q.Val = pick(r, []string{"fox", "quick dogs", "gatto", "note"}) // hybrid
+				}
+				ops = append(ops, q)
 			case 11:
 				ops = append(ops, Op{K: "q_get", Idx: c13Hot, ID: "hot"})
 			}
@@ -118,11 +131,13 @@ func runC13(w *World, tr *Trace) {
 	var spec SchedSpec
 	advProb := 0.0
 	subBuf := -1
+	autoSave := false
 	if tr != nil {
 		taskOps = tr.Tasks
 		spec = *tr.Sched
 		advProb, _ = tr.Extra["adv_prob"].(float64)
 		subBuf = int(toI64(tr.Extra["sub_buf"]))
+		autoSave, _ = tr.Extra["auto_save"].(bool)
 	} else {
 		taskOps = c13Ops(w)
 		spec = newSched(r)
@@ -130,8 +145,18 @@ func runC13(w *World, tr *Trace) {
 		if r.Intn(2) == 0 {
 			subBuf = r.Intn(3)
 		}
+		// a third of the runs: an automatic snapshot is due at every housekeeping tick (one write is enough),
+		// and the clock is advanced often, so that the background snapshot meets client calls and Close
+		if r.Intn(3) == 0 {
+			autoSave = true
+			advProb = 0.2
+		}
 	}
 	w.Opts = w.defaultOpts()
+	if autoSave {
+		w.Opts.AutoSaveThreshold = 1
+		w.Opts.AutoSaveInterval = time.Nanosecond
+	}
 	freeRun := kdArgs["free"] == "1"
 	if freeRun {
 		w.Probe("free_running_race_tier")
@@ -168,7 +193,7 @@ func runC13(w *World, tr *Trace) {
 			rec.out, rec.found = string(v), ok
 			rec.ret = nextSeq()
 		case "q_search":
-			_, rec.err = e.VSearch(op.Idx, cloneVec(op.Vec), op.KK, "", "", 0, 1, nil)
+			_, rec.err = e.VSearch(op.Idx, cloneVec(op.Vec), op.KK, "", op.Val, 0, 0.5, nil)
 			rec.ret = nextSeq()
 		case "q_get":
 			_, rec.err = e.VGet(op.Idx, op.ID)
@@ -203,7 +228,7 @@ func runC13(w *World, tr *Trace) {
 				panic(harnessErr{"setup: " + err.Error()})
 			}
 		}
-		must(e.VCreate(c13Hot, "euclidean", 8, 40, "float32", "", nil, nil, nil))
+		must(e.VCreate(c13Hot, "euclidean", 8, 40, "float32", "english", nil, nil, nil))
 		must(e.VCreate(c13Churn, "euclidean", 4, 8, "float32", "", nil, nil, nil))
 		must(e.VAdd(c13Hot, "hot", []float32{1, 2, 3}, map[string]any{"base": "x"}))
 		must(e.VAdd(c13Hot, "a", []float32{0, 1, 0}, nil))
@@ -246,6 +271,9 @@ func runC13(w *World, tr *Trace) {
 		mergedKeys := map[string]bool{}
 		for _, rc := range recs {
 			after := closeRet >= 0 && rc.inv > closeRet
+			if rc.op.K == "reinforce" && (len(rc.op.IDs) != 1 || rc.op.IDs[0] != "hot") {
+				after = false // reinforcing an id that may not exist is a no-op, with or without an engine
+			}
 			if after && c13Mutating[rc.op.K] && rc.err == nil {
 				w.Fail("calls_after_close_fail", "acked_after_close_"+rc.op.K, fmt.Sprintf("%s invoked after Close had returned came back without an error", rc.op.String()), -1)
 				return
@@ -253,6 +281,9 @@ func runC13(w *World, tr *Trace) {
 			before := closeInvoke < 0 || rc.ret < closeInvoke
 			switch rc.op.K {
 			case "reinforce":
+				if len(rc.op.IDs) != 1 || rc.op.IDs[0] != "hot" {
+					continue
+				}
 				if rc.err == nil && (closeRet < 0 || rc.inv < closeRet) {
 					issuedReinforce++
 				}
@@ -290,6 +321,34 @@ func runC13(w *World, tr *Trace) {
 			}
 		}
 		if closeInvoke < 0 {
+			// ids whose delete was acknowledged and that nobody added again: gone for every reader, also for
+			// the metadata indexes (a reinforce racing the delete must not re-create their entries)
+			delAck, addAfter := map[string]int64{}, map[string]int64{}
+			for _, rc := range recs {
+				if rc.err != nil || rc.op.Idx != c13Hot {
+					continue
+				}
+				switch rc.op.K {
+				case "del":
+					if rc.ret > delAck[rc.op.ID] {
+						delAck[rc.op.ID] = rc.ret
+					}
+				case "add":
+					if rc.ret > addAfter[rc.op.ID] {
+						addAfter[rc.op.ID] = rc.ret
+					}
+				}
+			}
+			if ids, err := w.E.VFilter(c13Hot, "owner>=0", 1000); err == nil {
+				for _, id := range ids {
+					if t, ok := delAck[id]; ok && addAfter[id] < t {
+						if _, gerr := w.E.VGet(c13Hot, id); gerr != nil {
+							w.Fail("per_item_serial", "deleted_id_in_metadata_index", fmt.Sprintf("live: VFilter(owner>=0) returns %s, whose delete was acknowledged and which was not added again (VGet: %v)", id, gerr), -1)
+							return
+						}
+					}
+				}
+			}
 			checkHot(w.E, "live")
 			if err := w.E.Close(); err != nil {
 				w.Probe("close_error")
@@ -337,7 +396,7 @@ func runC13(w *World, tr *Trace) {
 	if subBuf >= 0 {
 		w.Probe("slow_subscriber")
 	}
-	w.Res.Trace = &Trace{Prop: "C13", Seed: w.Seed, Profile: map[string]any{}, Tasks: taskOps, Sched: &spec, Extra: map[string]any{"adv_prob": advProb, "sub_buf": subBuf}}
+	w.Res.Trace = &Trace{Prop: "C13", Seed: w.Seed, Profile: map[string]any{}, Tasks: taskOps, Sched: &spec, Extra: map[string]any{"adv_prob": advProb, "sub_buf": subBuf, "auto_save": autoSave}}
 	var sk []string
 	for _, ops := range taskOps {
 		var ks []string
